@@ -295,6 +295,7 @@ impl Jsonify for Value {
   fn jsonify(&self) -> String {
     match self {
       Value::Boolean(value) => format!("{}", value),
+      Value::Date(_) | Value::Time(_) | Value::DateTime(_) | Value::DaysAndTimeDuration(_) | Value::YearsAndMonthsDuration(_) => format!("\"{}\"", self),
       Value::ExpressionList(items) => items.to_string(),
       Value::Context(ctx) => ctx.jsonify(),
       Value::ContextEntryKey(name) => name.to_string(),
